@@ -4,14 +4,16 @@
    writes the same stdout and exits with the same status as bash.
 
    What is proved here, for the CORE language of Interp/Core.v (echo, true, false, ":", assignments,
-   "$x", "$?", !, && ||, lists, { }, ( ), if/elif/else, while/until, for, case with literal patterns,
-   functions and return, break n / continue n, exit n, set -e / set +e, unknown commands):
+   "$x", "$?", "$(list)" command substitution, !, && ||, pipelines | with set -o pipefail, lists, { }, ( ),
+   if/elif/else, while/until, for, case with literal patterns, functions and return, break n / continue n,
+   exit n, set -e / set +e, unknown commands):
    the flag machine transliterated from interp/runner.go (Interp/Flags.v: stop() tests, flags
    returning/exiting/breakEnclosing/contnEnclosing/inLoop/inFunc/noErrExit/lastExit) computes, for EVERY
    program, EVERY fuel and every clean initial state, exactly the stdout, status and variables of the
    structured big-step semantics (Interp/Sem.v), unless the semantics aborts with one of its named
    classes (Sem.abort: out of fuel, outside the core language, or one of the known divergences
-   ABadCount / ABadStatus / AReturnOutside / ABreakInCond / ASetInIgnored / AEmptyCond).
+   ABadCount / ABadStatus / AReturnOutside / ABreakInCond / ASetInIgnored / ANegatedInSubshell /
+   AErrexitInSubst / APipeLastStage / ASubstStatus / AEmptyCond).
    The semantics itself is tied to real bash 5.2, and the machine to the real interp.Runner, by the
    legs of checks/c26.py on every run.  The model is of the REPAIRED tree: the divergences found while
    building this proof (statements after break/continue in nested blocks, break through function calls,
@@ -62,6 +64,25 @@ Example C26_nonvacuous :
   is_abort (outc (sem_prog 20 sample init_sst)) = false
   /\ obs (run_prog 20 sample init_st) = sobs (sem_prog 20 sample init_sst)
   /\ fst (fst (obs (run_prog 20 sample init_st))) = [49; 10; 51; 10; 122; 10]%N.
+Proof. vm_compute. repeat split. Qed.
+
+(* command substitution (trailing newlines stripped, status of an assignment), a pipeline under
+   pipefail, errexit not triggered in a condition: both sides print "[ab] 1\n3\n" and end with status 3 *)
+Definition sample2 : prog :=
+  [ Stmt false (CAssign (bs "x") [WLit (bs "["); WSubst [Stmt false (CCall (w "echo") [w "ab"]);
+                                                      Stmt false (CCall (w "echo") []);
+                                                      Stmt false (CCall (w "false") [])]; WLit (bs "]")]);
+    Stmt false (CCall (w "echo") [[WVar (bs "x")]; [WStatus]]);
+    Stmt false (CCall (w "set") [w "-o"; w "pipefail"]);
+    Stmt false (COr (Stmt false (CPipe (Stmt false (CSub [Stmt false (CCall (w "exit") [w "3"])]))
+                                       (Stmt false (CCall (w "true") []))))
+                    (Stmt false (CCall (w "echo") [[WStatus]])));
+    Stmt false (CCall (w "exit") [[WSubst [Stmt false (CCall (w "echo") [w "3"])]]]) ].
+
+Example C26_nonvacuous_subst_pipe :
+  is_abort (outc (sem_prog 20 sample2 init_sst)) = false
+  /\ obs (run_prog 20 sample2 init_st) = sobs (sem_prog 20 sample2 init_sst)
+  /\ fst (obs (run_prog 20 sample2 init_st)) = ([91; 97; 98; 93; 32; 49; 10; 51; 10]%N, 3%N).
 Proof. vm_compute. repeat split. Qed.
 
 (* the named scope exclusions are reachable: e.g. `return 3` outside any function *)
